@@ -185,3 +185,55 @@ func dedupe(ns []oname) ([]oname, int) {
 	}
 	return r, d
 }
+
+// manyShape: how the components of a many-component name look.
+type manyShape struct {
+	typ     uint64
+	valLen  int
+	indexed bool // value bytes depend on the position (otherwise all components are identical)
+}
+
+func manyShapes() []manyShape {
+	var r []manyShape
+	for _, t := range []uint64{8, 253} {
+		for _, l := range []int{0, 1, 2} {
+			r = append(r, manyShape{t, l, false}, manyShape{t, l, true})
+		}
+	}
+	return r
+}
+
+// manyName: k components of the given shape; lastAlt changes the last byte of the last component.
+func manyName(sh manyShape, k int, lastAlt bool) oname {
+	n := make(oname, k)
+	for i := range n {
+		v := make([]byte, sh.valLen)
+		for j := range v {
+			v[j] = 0x61
+			if sh.indexed {
+				v[j] = byte((i*7 + j*3) % 256)
+			}
+		}
+		if lastAlt && i == k-1 && sh.valLen > 0 {
+			v[sh.valLen-1] ^= 0x80
+		}
+		n[i] = ocomp{sh.typ, v}
+	}
+	return n
+}
+
+// manyCompPairUniverse: every component count 0..maxK × every shape (+ last-byte variant): the
+// all-pairs universe of the many-components family.
+func manyCompPairUniverse(maxK int) []oname {
+	var r []oname
+	for k := 0; k <= maxK; k++ {
+		for _, sh := range manyShapes() {
+			r = append(r, manyName(sh, k, false))
+			if sh.valLen > 0 && k > 0 {
+				r = append(r, manyName(sh, k, true))
+			}
+		}
+	}
+	d, _ := dedupe(r)
+	return d
+}
